@@ -333,11 +333,10 @@ func (m *Module) AssignGlobalIDs() error {
 	id := int64(0)
 	setName := func(n namedVar) error {
 		if n.IsUnnamed() {
-			if n.ID() != 0 && id != n.ID() {
-				want := id
-				got := n.ID()
-				return errors.Errorf("invalid global ID, expected %s, got %s", enc.GlobalID(want), enc.GlobalID(got))
-			}
+			// The ID of an unnamed global is determined by its position in the
+			// printed module (global variables, aliases, ifuncs, functions); an ID
+			// assigned earlier (by the parser in textual order, or by a previous
+			// print before the module was edited) is overwritten.
 			n.SetID(id)
 			id++
 		}
